@@ -13,7 +13,8 @@ def HexGroup (g : Bytes) (w : Nat) : Prop :=
   g ≠ [] ∧ g.length ≤ 4 ∧ (∀ c ∈ g, (hexVal? c).isSome = true) ∧ hexAcc 0 g = w
 
 /-- a trailing dotted quad: what `inet_pton4` accepts, with a first field of at most four
-    digits (its digits are scanned as hex digits of a would-be group first) -/
+    digits (its digits are scanned as hex digits of a would-be group first; since F42 `DecOctet`
+    itself allows at most three) -/
 def V4Tail (d v : Bytes) : Prop :=
   ∃ d1 d2 d3 d4 v1 v2 v3 v4, d = d1 ++ cDot :: (d2 ++ cDot :: (d3 ++ cDot :: d4)) ∧
     DecOctet d1 v1 ∧ DecOctet d2 v2 ∧ DecOctet d3 v3 ∧ DecOctet d4 v4 ∧ d1.length ≤ 4 ∧
